@@ -24,6 +24,10 @@
 //                 rvalue calls); reference_wrapper bound argument; member pointer / function pointer targets; copies
 //   ipf.forwarding   inplace_function<int(TCM&, TCM const&, TCM&&, TCM)> against std::function: categories seen by the target,
 //                 by-value parameter copied / moved, const wrapper, move-only result (histories: C20_inplace_function.cpp)
+//   *.addressof   function_ref / reference_wrapper / tie / forward_as_tuple / pair of references bound to an object whose class
+//                 overloads unary operator& (returns a decoy): the call must land in the bound object (its counter moves)
+//   ipf.special_targets / byvalue.copies   targets with an initializer_list constructor (direct-non-list-initialisation of the
+//                 stored target, as std::function does), by-value signature parameters: copies made = std::function's
 //   not_fn.*      all four wrapper categories, negated result, function / member pointers, copies
 //
 // EXCLUDED because it does not compile on the pinned tree (g++ 12, probed):
@@ -46,6 +50,8 @@
 #include "tracked.hpp"
 
 #include "C20_common.hpp"
+
+#include <initializer_list>
 
 namespace c20w { // (named: not_fn<f>() static_asserts `f != nullptr`, which is not a constant expression for an internal-linkage f)
 
@@ -887,7 +893,7 @@ template <typename L, typename Sig, typename T>
 auto make_ipf(T&& target)
 {
     if constexpr (std::is_same_v<L, EtlLib>) {
-        return etl::inplace_function<Sig, 16>{std::forward<T>(target)};
+        return etl::inplace_function<Sig, 32>{std::forward<T>(target)};
     } else {
         return std::function<Sig>{std::forward<T>(target)};
     }
@@ -1087,6 +1093,186 @@ void add_compositions()
     });
 }
 
+// ------------------------------------------------------------------ object identity under an overloaded unary operator&,
+// by-value parameters (copy counts), targets with an initializer_list constructor
+// A callable whose class overloads unary operator& (handle / proxy style): `&obj` yields ANOTHER object (a decoy with a
+// different factor).  Wrappers that store a pointer / reference to a user object must use addressof: the call has to
+// land in the bound object (its call counter moves, its factor decides the result).
+struct Amp {
+    int k;
+    Amp* decoy;
+    mutable int calls{0};
+    auto operator&() -> Amp* { return decoy; }
+    auto operator&() const -> Amp const* { return decoy; }
+    auto operator()(int x) const -> int
+    {
+        ++calls;
+        log_call("Amp", k, "const&");
+        log_arg("int", x);
+        return k * x;
+    }
+};
+// a callable that converts to int and has an initializer_list<int> constructor: C{c} and C(c) differ
+struct ILFn {
+    int k;
+    explicit ILFn(int v) : k(v) { }
+    ILFn(std::initializer_list<int> l) : k(static_cast<int>(l.size()) * 1000) { }
+    ILFn(ILFn const&) = default;
+    operator int() const { return k; } // NOLINT
+    auto operator()(int x) -> int
+    {
+        log_call("ILFn", k, "&");
+        return k + x;
+    }
+};
+template <typename L>
+auto amp_through_param(std::conditional_t<std::is_same_v<L, EtlLib>, etl::function_ref<int(int)>, std::function<int(int)>> f, int x) -> int
+{
+    return f(x);
+}
+
+void add_round3()
+{
+    add_family("fref.addressof", "function_ref", 4, 1, []<class L>(int x, int) {
+        begin();
+        Amp decoy{1000, nullptr};
+        Amp a{3, std::addressof(decoy)};
+        Amp const ca{5, std::addressof(decoy)};
+        int r = 0;
+        switch (x) {
+        case 0: r = make_fref<L, int(int)>(a)(2); break;
+        case 1: r = make_fref<L, int(int)>(ca)(2); break;
+        case 2: {
+            if constexpr (std::is_same_v<L, EtlLib>) {
+                r = amp_through_param<L>(Amp{7, std::addressof(decoy)}, 2); // temporary callable bound to the by-value function_ref parameter
+            } else {
+                r = amp_through_param<L>(std::function<int(int)>{Amp{7, std::addressof(decoy)}}, 2);
+            }
+            break;
+        }
+        default: {
+            auto w = make_fref<L, int(int)>(a);
+            auto c = w;
+            a.k    = 4; // the wrapper refers to the object: a later change of its state is seen
+            r      = c(2) * 100 + w(3);
+            break;
+        }
+        }
+        Out o;
+        o << finish(r, "int") << " calls: a=" << a.calls << " ca=" << ca.calls << " decoy=" << decoy.calls;
+        return o.s;
+    });
+    add_family("rw.addressof", "reference_wrapper", 1, 1, []<class L>(int, int) {
+        begin();
+        Amp decoy{1000, nullptr};
+        Amp a{3, std::addressof(decoy)};
+        Amp b{4, std::addressof(decoy)};
+        auto r  = L::ref(a);
+        auto c  = L::cref(a);
+        auto rr = L::ref(r);
+        Amp& back = r;
+        Out o;
+        o << "refers:" << (std::addressof(r.get()) == std::addressof(a)) << (std::addressof(c.get()) == std::addressof(a)) << (std::addressof(rr.get()) == std::addressof(a)) << (std::addressof(back) == std::addressof(a));
+        int r1 = r(2);
+        int r2 = c(3);
+        r      = L::ref(b);
+        int r3 = r(2);
+        auto w = L::bind_front(L::ref(a), 5); // a reference_wrapper as the bound callable
+        int r4 = w();
+        int r5 = L::invoke(L::ref(a), 6);
+        bool n = L::not_fn(L::ref(a))(0);
+        o << " " << finish(r1, "int") << " r2=" << r2 << " r3=" << r3 << " r4=" << r4 << " r5=" << r5 << " n=" << n << " calls: a=" << a.calls << " b=" << b.calls << " decoy=" << decoy.calls;
+        return o.s;
+    });
+    add_family("tuple.addressof", "reference_wrapper", 1, 1, []<class L>(int, int) {
+        begin();
+        Amp decoy{1000, nullptr};
+        Amp a{3, std::addressof(decoy)};
+        Amp const ca{5, std::addressof(decoy)};
+        auto t  = L::tie(a, ca);
+        auto fw = L::forward_as_tuple(a, ca, std::move(a));
+        typename L::template pair<Amp&, Amp const&> p{a, ca};
+        typename L::template tuple<Amp, Amp> owned{a, ca}; // copies keep the value, get<I> refers to the element
+        Out o;
+        o << "tie:" << (std::addressof(L::template get<0>(t)) == std::addressof(a)) << (std::addressof(L::template get<1>(t)) == std::addressof(ca));
+        o << " forward_as_tuple:" << (std::addressof(L::template get<0>(fw)) == std::addressof(a)) << (std::addressof(L::template get<1>(fw)) == std::addressof(ca)) << (std::addressof(L::template get<2>(fw)) == std::addressof(a));
+        o << " pair:" << (std::addressof(p.first) == std::addressof(a)) << (std::addressof(L::template get<1>(p)) == std::addressof(ca));
+        o << " owned:" << L::template get<0>(owned).k << "," << L::template get<1>(owned).k;
+        int r = L::apply([](Amp& x, Amp const& y) { return x(2) * 100 + y(3); }, t);
+        o << " " << finish(r, "int") << " calls: a=" << a.calls << " ca=" << ca.calls << " decoy=" << decoy.calls;
+        return o.s;
+    });
+    // owning wrappers with an operator&-overloading / initializer_list-constructible target: the stored COPY is the target
+    add_family("ipf.special_targets", "inplace_function.forwarding", 4, 1, []<class L>(int x, int) {
+        begin();
+        Amp decoy{1000, nullptr};
+        Amp a{3, std::addressof(decoy)};
+        int r = 0;
+        switch (x) {
+        case 0: {
+            auto w = make_ipf<L, int(int)>(a);
+            auto c = w;
+            auto m = std::move(w);
+            r      = c(2) * 100 + m(3);
+            break;
+        }
+        case 1: { // [func.wrap.func.con]: the target is direct-non-list-initialised from the argument
+            ILFn f(7);
+            auto w = make_ipf<L, int(int)>(f);
+            r      = w(1);
+            break;
+        }
+        case 2: { // ... and so are the targets of copies and of moved-to wrappers
+            auto w = make_ipf<L, int(int)>(ILFn(7));
+            auto c = w;
+            auto m = std::move(w);
+            r      = c(1) * 100 + m(2);
+            break;
+        }
+        default: {
+            auto w = L::bind_front(ILFn(7), 1); // call wrappers store their target by direct-non-list-initialisation, too
+            auto n = L::not_fn(ILFn(0));
+            r      = w() * 10 + (n(0) ? 1 : 0);
+            break;
+        }
+        }
+        Out o;
+        o << finish(r, "int") << " calls: a=" << a.calls << " decoy=" << decoy.calls;
+        return o.s;
+    });
+    // by-value signature parameter and by-value target parameter: exactly the copies std::function makes (one for an
+    // lvalue argument, none for an rvalue argument); the source is intact resp. moved from
+    add_family("byvalue.copies", "inplace_function.forwarding", 6, 1, []<class L>(int x, int) {
+        begin();
+        TCM a(4);
+        int r = 0;
+        lt::reg().copies = 0;
+        switch (x) {
+        case 0: r = make_ipf<L, int(TCM, int)>(Consume{})(a, 1); break;
+        case 1: r = make_ipf<L, int(TCM, int)>(Consume{})(std::move(a), 1); break;
+        case 2: r = make_ipf<L, int(TCM&&, int)>(Consume{})(std::move(a), 1); break; // target copies?  no: moves from the forwarded rvalue
+        case 3: {
+            Consume t;
+            r = make_fref<L, int(TCM, int)>(t)(a, 1);
+            break;
+        }
+        case 4: {
+            Consume t;
+            r = make_fref<L, int(TCM, int)>(t)(std::move(a), 1);
+            break;
+        }
+        default: {
+            Consume t;
+            r = make_fref<L, int(TCM&&, int)>(t)(std::move(a), 1);
+            break;
+        }
+        }
+        Out o;
+        o << finish(r, "int") << " a=" << V{a} << " copies=" << static_cast<int>(lt::reg().copies);
+        return o.s;
+    });
+}
+
 void build()
 {
     static bool done = false;
@@ -1100,6 +1286,7 @@ void build()
     add_not_fn();
     add_inplace_function_forwarding();
     add_compositions();
+    add_round3();
 }
 
 } // namespace c20w
